@@ -16,7 +16,7 @@ def types(g):
         g.const('board', 'BOARD_END'),
         g.typ('board', 'struct', 'Point'),
         g.typ('board', 'struct', 'BoardState'),
-        g.const('move_generation', 'KNIGHT_CORDS'),
+        g.const('move_generation', 'KNIGHT_CORDS', expect_text='[ (1, 2), (1, -2), (2, 1), (2, -1), (-1, 2), (-1, -2), (-2, -1), (-2, 1), ]'),
     ])
 
 SPEC = r'''
@@ -217,7 +217,7 @@ ANN_CORDS = {
         3: 'proof { reveal(attacked_by); }',
     },
     'before_text': [('// Check from king', 0, KING_HINT)],
-    'expect': {'loops': ['for', 'while', 'for', 'while', 'for'], 'returns': 4},
+    'expect': {'loops': ['for', 'while', 'for', 'while', 'for'], 'returns': 4, 'contains': ['&[(1, 0), (-1, 0), (0, 1), (0, -1)]', '&[(1, -1), (1, 1), (-1, 1), (-1, -1)]']},
 }
 ANN_IS_CHECK = {
     'ret': 'res',
